@@ -368,7 +368,7 @@ C21Step(m, e) ==
              \* had before the drop/restart (an acceptor shows its recovered number only after the Logon: pre.nr is 1)
              lab == LabelsOf(e) \ (IF e.e = "Recv" /\ e.in # <<>> /\ e.in[1].type = "A" /\ e.in[1].seq <= m.lastnr[w]
                                     THEN {"logon_gap_terminated"} ELSE {})
-             t2 == m.taint \cup lab \cup (IF StepExplained(e, w = "b", Get(m.cfg, "ignore_logon_gap", FALSE)) THEN {} ELSE {"UNEXPLAINED_STEP"})
+             t2 == m.taint \cup lab \cup (IF StepExplained(e, w = "b", FALSE) THEN {} ELSE {"UNEXPLAINED_STEP"})
              newsent == {e.out[k].id : k \in {j \in DOMAIN e.out : IsNew(e.out[j]) /\ IsApp(e.out[j])}}
              news == SelectSeq(e.out, LAMBDA o : IsNew(o))
              wd == WalkDeliv(e.delivered, 1, m.delivAt[w], m.maxFirst[w])
